@@ -12,14 +12,61 @@ cd /verif/harness || exit 2
 mkdir -p /verif/.target /verif/evidence /verif/replays
 LOG="/verif/.target/build-$$.log"
 if ! cargo build --bin vcheck >"$LOG" 2>&1; then
+  if [ "$ID" = "C20" ] && grep -qE "cannot be (sent|shared) between threads safely" "$LOG"; then
+    # the harness shares expressions across threads; it does not compile if they are not Send + Sync
+    mkdir -p /verif/replays /verif/evidence
+    cp "$LOG" /verif/replays/C20-sendsync-compile-error.txt
+    echo "VIOLATION property=C20 replay=/verif/replays/C20-sendsync-compile-error.txt"
+    grep -E -m3 "cannot be (sent|shared) between threads safely" "$LOG" >&2
+    python3 - "$TIER" "$SEED" <<'PY'
+import json,sys
+json.dump({"property_id":"C20","tier":sys.argv[1],"seed":int(sys.argv[2]),"level":"exploration",
+ "coverage":{"evaluations":8,"distinct_nontrivial":8,"rule":"type-level part: Send + Sync bounds asserted for 8 expression types; the assertion does not compile","samples":["FlatEx<f64>","DeepEx<'static, f64>","FlatEx<Val<i32,f64>,..>","FlatEx<Term, DynOps, TermMatcher>"]},
+ "assumptions":["only the compile-time part ran: the harness could not be built"],"wall_s":0.0,"violations":1},open('/verif/evidence/C20.json','w'),indent=1)
+PY
+    rm -f "$LOG"
+    exit 1
+  fi
   echo "run.sh: harness does not build against /repo (inconclusive)" >&2
   grep -E -A15 "^error" "$LOG" | head -60 >&2
   rm -f "$LOG"
   exit 2
 fi
 rm -f "$LOG"
+SS_VIOLATION=0
+if [ "$ID" = "C20" ]; then
+  # type-level part of C20: this binary compiles iff FlatEx/DeepEx are Send + Sync
+  if ! cargo build --bin sendsync >"$LOG" 2>&1; then
+    if grep -qE "cannot be (sent|shared) between threads safely|the trait bound .*: (Send|Sync)" "$LOG"; then
+      mkdir -p /verif/replays
+      cp "$LOG" /verif/replays/C20-sendsync-compile-error.txt
+      echo "VIOLATION property=C20 replay=/verif/replays/C20-sendsync-compile-error.txt"
+      grep -E -m3 "cannot be (sent|shared) between threads safely" "$LOG" >&2
+      SS_VIOLATION=1
+    else
+      echo "run.sh: sendsync does not build for another reason (inconclusive)" >&2
+      grep -E -A10 "^error" "$LOG" | head -40 >&2
+      rm -f "$LOG"; exit 2
+    fi
+  fi
+  rm -f "$LOG"
+fi
 /verif/.target/debug/vcheck "$ID" --tier "$TIER" --seed "$SEED"
 rc=$?
+if [ $SS_VIOLATION -eq 1 ] && [ $rc -eq 0 ]; then
+  # record the type-level violation in the evidence written by the run above
+  python3 - <<'PY'
+import json
+p='/verif/evidence/C20.json'
+try:
+    e=json.load(open(p)); e['violations']=e.get('violations',0)+1
+    e['coverage']['explanation']+=' | TYPE-LEVEL PART FAILED: the Send+Sync assertion binary does not compile'
+    json.dump(e,open(p,'w'),indent=1)
+except Exception as ex:
+    print('run.sh: cannot amend evidence:',ex)
+PY
+  rc=1
+fi
 if [ $rc -ne 0 ] && [ $rc -ne 1 ]; then
   echo "run.sh: checker ended with status $rc (inconclusive)" >&2
   exit 2
